@@ -68,7 +68,14 @@ Corrupt == /\ E.a = "Corrupt" /\ l' = l + 1 /\ ncorrupt' = ncorrupt + 1
            /\ bad' = IF E.outcome \in {"ok", "err"} THEN bad
                      ELSE Append(bad, [pair |-> -1, line |-> l, class |-> "decode-" \o E.outcome, at |-> E.i, partial |-> 0, load |-> E.mutation, predicted |-> "ok|err"])
            /\ Keep(<<pair, prog, oldLen, newLen, mismatch, ncrash, ncodec, covered>>)
-Next == More /\ (Reset \/ Sys \/ Final \/ Crash \/ Codec \/ Corrupt)
+\* after every crash the next save happens in the same directory, with whatever the dead writer left
+\* behind (a temporary file, a partial file): Store is total on every reachable file-system state and
+\* Load then returns exactly what was stored
+Recover == /\ E.a = "Recover" /\ l' = l + 1
+           /\ bad' = IF E.ok THEN bad
+                     ELSE Append(bad, [pair |-> pair, line |-> l, class |-> "save-after-crash-not-read-back", at |-> E.at, partial |-> E.partial, load |-> E.detail, predicted |-> "new"])
+           /\ Keep(<<pair, prog, oldLen, newLen, mismatch, ncrash, ncodec, ncorrupt, covered>>)
+Next == More /\ (Reset \/ Sys \/ Final \/ Crash \/ Recover \/ Codec \/ Corrupt)
 Spec == Init /\ [][Next]_tvars
 Done == l = Len(Rec) + 1 =>
           JsonSerialize(IOEnv.OUT, [events |-> Len(Rec), crashes |-> ncrash, codecs |-> ncodec, corrupts |-> ncorrupt,
